@@ -197,6 +197,7 @@ def run_conc_ratio(num_unit):
                         val, n_, d_ = out.value
                         I.oblige('ensures[SI]', z3.And(real(val) == exp, boolz(I.equals(n_, nb)),
                                                        boolz(I.equals(d_, db))), 'property')
+                        reuse(I, parts, out.value)
                     else:
                         I.oblige('ensures[SI]', False, 'property',
                                  note=f"{out.exc.cls} at line {out.exc.lineno} for a string of the documented form")
@@ -224,7 +225,23 @@ CONC_REPLAY = (
     "    try:\n        got = Unit.parse_concentration(text)\n"
     "    except Exception as e:\n        return {'ok': exp is None, 'observed': repr(e), 'expected': str(exp), 'text': text}\n"
     "    ok = exp is not None and R.close(got[0], exp[0], 1e-9, 1e-10) and tuple(got[1:]) == tuple(exp[1:])\n"
+    "    again = [Unit.parse_concentration(text) for _ in range(3)]\n"
+    "    if ok and any(tuple(a) != tuple(got) for a in again):\n"
+    "        return {'ok': False, 'observed': [got] + again, 'expected': 'the same meaning every time the text is parsed', 'text': text}\n"
     "    return {'ok': ok, 'observed': got, 'expected': exp and [float(exp[0]), exp[1], exp[2]], 'text': text}\n")
+
+
+def reuse(I, parts, first):
+    """the same text parsed again (in the same process) has the same meaning — the parser keeps no state between calls
+    (functools.cache is modelled faithfully by the engine: a cached helper hands out the same object again)"""
+    again = vc.call(I, 'Unit.parse_concentration', [SegStr(list(parts))])
+    if again.kind != 'return':
+        I.oblige('ensures[same-on-reuse]', False, 'property', note=f'second parse of the same text raised {again.exc.cls}')
+        return
+    v1, n1, d1 = first
+    v2, n2, d2 = again.value
+    I.oblige('ensures[same-on-reuse]', z3.And(real(v1) == real(v2), boolz(I.equals(n1, n2)), boolz(I.equals(d1, d2))),
+             'property', note='parsing the same concentration text twice gives two different meanings')
 
 
 def run_conc_short():
@@ -249,6 +266,7 @@ def run_conc_short():
                 val, n_, d_ = out.value
                 I.oblige('ensures[SI]', z3.And(real(val) == exp, boolz(I.equals(n_, nb)), boolz(I.equals(d_, db))),
                          'property')
+                reuse(I, parts, out.value)
             else:
                 I.oblige('ensures[SI]', False, 'property',
                          note=f"{out.exc.cls} at line {out.exc.lineno} for a string of the documented form")
